@@ -551,6 +551,15 @@ UNINITIALIZED_VALUE = UninitializedValue()
 """The only instance of :class:`UninitializedValue`."""
 
 
+def _literal_key(val: object) -> object:
+    """(type(val), val), applied recursively to the elements of tuples and frozensets."""
+    if isinstance(val, tuple):
+        return (type(val), tuple(_literal_key(elt) for elt in val))
+    if isinstance(val, frozenset):
+        return (type(val), frozenset(_literal_key(elt) for elt in val))
+    return (type(val), val)
+
+
 @dataclass(frozen=True)
 class KnownValue(Value):
     """Equivalent to ``typing.Literal``. Represents a specific value.
@@ -620,11 +629,16 @@ class KnownValue(Value):
         return super().can_overlap(other, ctx, mode)
 
     def __eq__(self, other: Value) -> bool:
-        return (
-            isinstance(other, KnownValue)
-            and type(self.val) is type(other.val)
-            and safe_equals(self.val, other.val)
-        )
+        if not isinstance(other, KnownValue) or type(self.val) is not type(other.val):
+            return False
+        if isinstance(self.val, (tuple, frozenset)):
+            # 1, True and 1.0 are equal, so (1, True) == (1, 1): also tell the
+            # elements apart by type, as is done for the value itself.
+            try:
+                return _literal_key(self.val) == _literal_key(other.val)
+            except Exception:
+                return False
+        return safe_equals(self.val, other.val)
 
     def __ne__(self, other: Value) -> bool:
         return not (self == other)
